@@ -43,6 +43,8 @@ def root_local(fn, local, bb, idx, depth):
     if len(defs) != 1:
         return None
     d = defs[0]
+    if d[0] == "param":
+        return local  # a `&mut` parameter is its own root (an out-parameter collection)
     if d[0] == "calldest":
         b2 = d[1]
         t2 = fn.term(b2)
